@@ -44,10 +44,25 @@ def r1_derivations(ctx):
     RHO, N, M, V = (Term.sym(x) for x in ("rho", "n", "M", "V"))
     cases = {"mass density given": dict(rho=True, n=False, given_n=False), "number density given": dict(rho=False, n=True, given_n=True),
              "number density given, mass density already derived": dict(rho=True, n=True, given_n=True)}
-    for name, c in cases.items():
+    # parameters the step takes besides self are bound through its call sites: every caller must hand over the same
+    # field (e.g. Matter._norm(self, self.composite_mass)); anything else is a shape this rule does not interpret
+    extra, bound = [a.arg for a in fn.args.args[1:]], {}
+    if extra:
+        sites = [c for m_ in ctx.repo.all_modules("src/scinumtools/materials") for c in ast.walk(m_.tree)
+                 if isinstance(c, ast.Call) and isinstance(c.func, ast.Attribute) and c.func.attr == "_norm" and norm(c.func.value) == "Matter"]
+        for i, a in enumerate(extra):
+            texts = {norm(c.args[i + 1]) if len(c.args) > i + 1 else next((norm(k.value) for k in c.keywords if k.arg == a), None) for c in sites}
+            if len(texts) == 1 and texts <= {"self.composite_mass", "self.volume", "self.mass_density", "self.number_density"}:
+                bound[a] = texts.pop()
+            else:
+                ctx.unrecognised(MT, "Matter._norm", "derivation step", f"parameter {a} receives {sorted(map(str, texts))[:3]} at its call sites")
+                extra = None
+                break
+    for name, c in cases.items() if extra is not None else ():
         for vol in (True, False):
             env = {"self.composite_mass": M, "self.volume": V if vol else NONE,
                    "self.mass_density": RHO if c["rho"] else NONE, "self.number_density": N if c["n"] else NONE}
+            env.update({a: env[t] for a, t in bound.items()})
 
             def decide(node, h, c=c, vol=vol):
                 s = norm(node)
@@ -69,6 +84,10 @@ def r1_derivations(ctx):
                 ctx.unrecognised(MT, "Matter._norm", cell, str(e))
                 continue
             rho, n, mass = h.env.get("self.mass_density"), h.env.get("self.number_density"), h.env.get("self.mass")
+            foreign = sorted({a for t in (rho, n, mass) if t is not None and t is not NONE for a in t.atoms()} - {"rho", "n", "M", "V"})
+            if foreign:
+                ctx.unrecognised(MT, "Matter._norm", cell, f"the derived quantities depend on {foreign[:3]}, which this rule cannot relate to the formula mass")
+                continue
             if c["given_n"]:
                 ok = n is not NONE and n.equals(N) and rho is not NONE and rho.equals(N * M)
                 ctx.check(ok, MT, "Matter._norm", f"{cell}: n stays as given and rho = n*M",
